@@ -174,6 +174,19 @@ CLAIMED = {
               'schema). Known finding F15c (list-schema rule set that looks like a field mapping) is reported as KNOWN-FINDING.'),
         note=COMMON_NOTE + 'Four defects of this property were repaired by fix: commits (F15b, F25, F28; F15a is covered by F28).',
         design='§6 C15'),
+    'C16': dict(
+        technique='Lean 4 proof (one environment threaded through the recursion; dispatch of custom rule / check_with / type / coercer independent of depth and context; cold isolation) + planted-extension oracle + correspondence with live class tables',
+        text=('C16_same_class / C16_same_class_normalize: every child validation and normalization runs with the environment and '
+              'tables (the class and its extra configuration) of its parent; C16_custom_rule, C16_check_with, C16_type, C16_coercer: '
+              'an extension is evaluated on (constraint, value) alone, identically at every depth, path and history; '
+              'C16_isolation_cold: whether a class accepts a schema is a function of its own tables and the registries; '
+              'C16_isolation_warm_fails (with C08_witness_subclass): the cache breaks the isolation - known finding F13e. Tie: an '
+              'extension of a generated subclass (custom rule, rule reading an extra config argument, custom type, named coercer / '
+              'setter / check_with) planted at a random rule-set position of any depth: the subclass accepts (accept port with the '
+              'class tables read from the live class), base class and sibling reject cold, validation and normalization match the '
+              'model (validate0 / validate ports).'),
+        note=COMMON_NOTE + 'Extra configuration arguments are modelled as part of the environment (closures), not as a field copied by Ctx.child.',
+        design='§6 C16'),
     'C17': dict(
         technique='Lean 4 proof (termination measure over the rotation streak, accounting invariant) + correspondence of the work-list model + least-fixpoint oracle',
         text=('C17_terminates: for every setter family, pending list and mapping the work list stops within n(n+3)/2 iterations; '
